@@ -18,7 +18,8 @@ UN = {'Not': 'PNot', 'Buf': 'PBuf', 'ZeroExtend': 'PZeroExtend', 'SignExtend': '
 MBIN = {'Xor2': 'PXor2', 'Nand2': 'PNand2', 'Nor2': 'PNor2', 'Equal': 'PEqual'}
 MNARY = {'And': 'PAnd', 'Or': 'POr', 'Nor': 'PNor'}
 MACRO = set(MBIN) | set(MNARY) | {'EqualConstant'}
-COVERED = set(BIN) | set(UN) | MACRO | {'AddCarryIn', 'ShiftLeftConstant', 'ShiftRightConstant', 'Mux2', 'Range', 'Bit', 'Constant',
+BIN.update({'Div': 'PDiv', 'Mod': 'PMod'})       # zero divisors: the leaf fixes the simulator's random result; such rows are outside the claim
+COVERED = set(BIN) | set(UN) | MACRO | {'BitsLSBF', 'BitsMSBF'} | {'AddCarryIn', 'ShiftLeftConstant', 'ShiftRightConstant', 'Mux2', 'Range', 'Bit', 'Constant',
                                         'ConcatenateMSBF', 'ConcatenateLSBF', 'Repeat'}
 
 
@@ -28,6 +29,14 @@ class NotCovered(Exception):
 
 def nid(top, scope, wire):
     return '(N f "%s" %d)' % (flat_name(top, scope, wire), wire.getWidth())
+
+
+def item_term(top, ch):
+    cls = type(ch).__name__
+    n = lambda w: nid(top, ch.parent, w)
+    if cls in ('BitsLSBF', 'BitsMSBF'):
+        return 'IBits %s %s [%s]' % ('true' if cls == 'BitsMSBF' else 'false', n(ch.a), '; '.join(n(b) for b in ch.bits))
+    return 'IPrim (%s)' % prim_term(top, ch)
 
 
 def prim_term(top, ch):
@@ -109,7 +118,7 @@ class Cover:
         leaves = [ch for _, ch in items]
         self.hw, self.top, self.sim = hw, top, sim
         self.leaves, self.regs = leaves, clocked
-        self.prims = '[' + ';\n    '.join(prim_term(top, x) for x in leaves) + ']'
+        self.items = '[' + ';\n    '.join(item_term(top, x) for x in leaves) + ']'
         self.gs = '[' + ';\n    '.join(reg_term(top, x) for x in clocked) + ']'
         self.ins = [vlog.vname(p.name) for p in top.inPorts]
         self.outs = [vlog.vname(p.name) for p in top.outPorts]
@@ -159,7 +168,8 @@ def check(tag, cases, with_trace=False):
             res[i] = ('parse', str(ex)); continue
         b['cover'] = cv
         body.append('Definition dsg%d : VSyntax.design := %s.' % (i, vparse.cq_design(mods)))
-        body.append('Definition ps%d (f : flat) : list prim :=\n   %s.' % (i, cv.prims))
+        body.append('Definition its%d (f : flat) : list citem :=\n   %s.' % (i, cv.items))
+        body.append('Definition ps%d (f : flat) : list prim := flat_map item_prims (its%d f).' % (i, i))
         body.append('Definition gs%d (f : flat) : list reginst :=\n   %s.' % (i, cv.gs))
         insl = '[' + '; '.join('NI f "%s"' % n for n in cv.ins) + ']'
         clk = 'NI f "%s"' % cv.clk
@@ -173,9 +183,10 @@ def check(tag, cases, with_trace=False):
         extra = ''
         if with_trace:
             # the kernel design built from the SAME terms, run on the stimulus: its observable trace must be the real simulator's
-            extra = (', map (fun s => map (rd (vals s)) (resolve_names f %s)) (run_states (comp_design f (ps%d f) (gs%d f)) '
-                     '(init_poked (comp_design f (ps%d f) (gs%d f)) (reg_st0 (gs%d f)) (reg_pokes (gs%d f))) (map (kstep f) %s))' % (outs, i, i, i, i, i, i, vsteps))
-        term = ('match elaborate dsg%d 200 %s with inl e => inl e | inr f => inr (match_flat (ps%d f) (gs%d f) (%s) %s f, '
+            extra = (', map (fun s => (map (rd (vals s)) (resolve_names f %s), forallb (fun b => negb (Z.eqb (rd (vals s) b) 0)) (div_nets (ps%d f)))) '
+                     '(run_states (comp_design_items f (its%d f) (gs%d f)) '
+                     '(init_poked (comp_design_items f (its%d f) (gs%d f)) (reg_st0 (gs%d f)) (reg_pokes (gs%d f))) (map (kstep f) %s))' % (outs, i, i, i, i, i, i, i, vsteps))
+        term = ('match elaborate dsg%d 200 %s with inl e => inl e | inr f => inr (match_items (its%d f) (gs%d f) (%s) %s f, '
                 'failing (diag (ps%d f) (gs%d f) (%s) %s f), %s%s) end')
         items.append(('m%d' % i, term % (i, vparse.cq_str(mods[0][1]), i, i, clk, insl, i, i, clk, insl, side, extra)))
     if items:
@@ -188,10 +199,24 @@ def check(tag, cases, with_trace=False):
             cv = cases[i]['cover']
             if not ok and failing and set(failing) <= {7, 9}: res[i] = ('guard', failing)      # only prim_wf / reg_wf fail: a class the theorems exclude
             elif not (ok and side): res[i] = ('nomatch', failing, side)
-            elif with_trace and [list(x) for x in v[3]] != [list(x) for x in cases[i]['trace']]:
-                res[i] = ('kernel-differs', v[3], cases[i]['trace'])
+            elif with_trace and not same_trace(v[3], cases[i]['trace'], len(cv.regs)):
+                res[i] = ('kernel-differs', [list(r[0]) for r in v[3]], cases[i]['trace'])
             else: res[i] = ('ok', len(cv.leaves), len(cv.regs))
     return [res[i] for i in range(len(cases))]
+
+
+def same_trace(krows, impl, n_regs):
+    """kernel rows (observed values, no-zero-divisor flag) against the real simulator's rows.  Rows the property excludes are skipped:
+    impl row None (the caller's exclusion) or a zero divisor net in that state; once a zero divisor occurred in a design WITH registers
+    the later rows are outside the claim too (a register may have latched the simulator's random result)."""
+    if len(krows) != len(impl): return False
+    for (kv, nz), row in zip(krows, impl):
+        if not nz:
+            if n_regs: return True
+            continue
+        if row is None: continue
+        if list(kv) != list(row): return False
+    return True
 
 
 def make_cases(seed=1, tier='quick', n_rand=8, n_steps=6):
@@ -199,10 +224,10 @@ def make_cases(seed=1, tier='quick', n_rand=8, n_steps=6):
     rng = random.Random(seed)
     cases = []
     for label, ins, outs, body in blocks.catalogue(rng, tier):
-        if label in ('Div', 'Mod'): continue
         try:
             hw, top = blocks.make_top('T_' + label, ins, outs, body)
-            text = vlog.emit(top); steps = blocks.stimulus(rng, ins, n_steps); trace = vlog.run_impl(hw, top, steps)
+            text = vlog.emit(top); steps = blocks.stimulus(rng, ins, n_steps, nonzero=('b',) if label in ('Div', 'Mod') else ())
+            trace = vlog.run_impl(hw, top, steps)
         except Exception as ex:
             continue
         cases.append(dict(label=label, hw=hw, top=top, text=text, steps=steps, trace=trace))
